@@ -858,6 +858,13 @@ regp_recv(RegP *p, RPMaybeFrame *mf)
         return -EINVAL;
     }
 
+    if (cs.buffer.data == NULL) {
+        /* An empty frame never reached the sink, so there is no block and
+         * nothing to parse: It is shorter than any header. */
+        mf->error.id = EBADMSG;
+        return regp_resp_meta(p, RP_META_EHEADERENC);
+    }
+
     int rc = parse_frame(&cs.buffer);
 
     if (rc < 0) {
